@@ -169,6 +169,15 @@ func main() {
 		outs := []l1.Out{}
 		logins := map[int]ev{}
 		text := string(raw)
+		// what an earlier run of the daemon left in the file must still be there, untouched, in front of the new lines
+		priorok := true
+		if prior, err := os.ReadFile(filepath.Join(*dir, fmt.Sprintf("prior-%d.txt", i))); err == nil && len(prior) > 0 {
+			if strings.HasPrefix(text, string(prior)) {
+				text = text[len(prior):]
+			} else {
+				priorok = false
+			}
+		}
 		if len(text) > 0 && !strings.HasSuffix(text, "\n") {
 			torn++
 		}
@@ -180,6 +189,9 @@ func main() {
 			var e ev
 			if err := json.Unmarshal([]byte(line), &e); err != nil || e.Type == "" {
 				torn++
+				continue
+			}
+			if e.Type == "PriorRun" { // only met when the prior content was damaged (reported by priorok)
 				continue
 			}
 			if e.Type == "UserLogin" && e.Outcome == "failed" {
@@ -221,7 +233,7 @@ func main() {
 			}
 		}
 		must(enc.Encode(map[string]any{"k": "outs", "outs": outs, "err": false, "mut": false, "stream": stream,
-			"torn": torn, "badwrites": badw, "writes": nw, "lines": len(stream), "failed": nfailed, "failedwant": r.script.NFailed}))
+			"torn": torn, "badwrites": badw, "writes": nw, "lines": len(stream), "failed": nfailed, "failedwant": r.script.NFailed, "priorok": priorok}))
 	}
 	bw.Flush()
 	fo.Close()
